@@ -73,6 +73,11 @@ pub fn in_domain(code: Code, v: u64) -> bool {
 
 /// boundary values: 2^i + {-2..=2}, domain maxima, code-specific step points, seeded extras
 pub fn boundary_values(code: Code, seed: u64, extras: usize) -> BTreeSet<u64> {
+    boundary_values_raw(code, seed, extras).into_iter().filter(|&v| in_domain(code, v)).collect()
+}
+
+/// same, without the codeword-length restriction (for pure length-function checks)
+pub fn boundary_values_raw(code: Code, seed: u64, extras: usize) -> BTreeSet<u64> {
     let mut s = BTreeSet::new();
     for i in 0..64u32 {
         let p = 1u64 << i;
@@ -142,7 +147,7 @@ pub fn boundary_values(code: Code, seed: u64, extras: usize) -> BTreeSet<u64> {
         let x = r.next() >> (r.next() % 64);
         s.insert(x);
     }
-    s.into_iter().filter(|&v| in_domain(code, v)).collect()
+    s.into_iter().filter(|&v| v <= code.max_value()).collect()
 }
 
 pub fn values(code: Code, dense_below: u64, seed: u64, extras: usize) -> Vec<u64> {
